@@ -72,6 +72,12 @@ fn gen(seed: u64, idx: u64, _tier: Tier) -> Plan {
     s.batch_size = *rng.pick(&[1i64, 4, 64]);
     s.log_level = Some(0);
     world_knobs(&mut rng, &mut plan, false);
+    if rng.chance(1, 4) {
+        // transient send_to / recv_from errors: what the worker does right after one must not
+        // change what the next request gets
+        plan.world.faults.send_err = *rng.pick(&[30u32, 100]);
+        plan.world.faults.recv_err = *rng.pick(&[0u32, 30]);
+    }
     plan.world.wall_secs = pick_secs(&mut rng);
     plan.world.wall_nanos = *rng.pick(&EDGES);
     plan.server = Some(s);
